@@ -369,9 +369,9 @@ fn ev_kind(e: &Ev) -> String {
 
 pub fn check(rep: &Reporter) {
 	let thorough = rep.tier.thorough();
-	let depth = if thorough { 24 } else { 12 };
+	let depth = 24; // the lifecycle model is once-through: the BFS reaches its fixpoint at depth 16 in both tiers
 	rep.set_rule(&format!(
-		"BFS over client histories up to depth {depth} from a menu of {} events (call / batch / two subscriptions / notification handler with their server answers: ok, error, malformed id, duplicate subscription id; abandon before ack, notification, lag overflow, unsubscribe, drop, unsubscribe acknowledgement, server-side close, stale responses re-using finished ids); each event runs the real client to quiescence; state key = (reference lifecycle state of every item, the four table sizes read through the accessor hook, connected flag). In every state each table is compared with an upper bound derived from what is still outstanding, and in every state with nothing outstanding all four tables must be empty; a response re-using a finished id must be treated like a never-used id (connection abandoned). Plus 1 000-fold repetitions of each primitive lifecycle asserting constant sizes.",
+		"BFS over client histories up to depth {depth} from a menu of {} events (call / batch / two subscriptions / notification handler with their server answers: ok, error, malformed id, duplicate subscription id; abandon before ack, notification, lag overflow, unsubscribe, drop, unsubscribe acknowledgement, server-side close, stale responses re-using finished ids); each event runs the real client to quiescence; state key = (reference lifecycle state of every item, the four table sizes read through the accessor hook, connected flag). In every state each table is compared with an upper bound derived from what is still outstanding, and in every state with nothing outstanding all four tables must be empty; a response re-using a finished id must be treated like a never-used id (connection abandoned). Plus 1 000-fold (thorough: 10 000-fold) repetitions of each primitive lifecycle asserting constant sizes.",
 		menu().len()
 	));
 	rep.assume("table sizes are read through the cfg(jsonrpsee_verif) accessor Client::verif_table_sizes()");
@@ -457,7 +457,7 @@ pub fn check(rep: &Reporter) {
 		("subscribe-lag", vec![Ev::Sub(0), Ev::AnsSubOk(0), Ev::Lag(0), Ev::AnsUnsub(0)]),
 		("handler", vec![Ev::Reg, Ev::MethodNotif, Ev::Unreg]),
 	] {
-		let reps = if thorough { 1000 } else { 200 };
+		let reps = if thorough { 10_000 } else { 1000 };
 		let sizes = repeat_cycle(&cycle, reps);
 		rep.add_evals(1, 1, "repetition");
 		if sizes.windows(2).any(|w| w[1].iter().zip(w[0].iter()).any(|(a, b)| a > b)) || sizes.last() != Some(&[0, 0, 0, 0]) {
